@@ -396,9 +396,26 @@ func storeGuards(c *Ctx) {
 				if x.Sel.Name == "NoClobber" {
 					// must be conjoined with an existence test of the final path
 					for _, cs := range callsIn(d.pkg, cond) {
-						if strings.HasSuffix(cs.callee.FullName(), ".Exists") || cs.callee.FullName() == "os.Stat" {
+						if strings.HasSuffix(cs.callee.FullName(), ".Exists") {
 							if len(cs.call.Args) > 0 && classifyPath(d, cs.call.Args[0], defs, 0).kind == "final" {
-								hasClobber = true
+								// positive polarity: NoClobber and Exists(final) are conjuncts, neither negated
+								pol := true
+								for _, y := range enclosing(cond, cs.call) {
+									if u, ok := y.(*ast.UnaryExpr); ok && u.Op == token.NOT {
+										pol = !pol
+									}
+									if b, ok := y.(*ast.BinaryExpr); ok && b.Op == token.LOR {
+										pol = false
+									}
+								}
+								for _, y := range enclosing(cond, x) {
+									if u, ok := y.(*ast.UnaryExpr); ok && u.Op == token.NOT {
+										pol = false
+									}
+								}
+								if pol {
+									hasClobber = true
+								}
 							}
 						}
 					}
